@@ -40,7 +40,7 @@ var trFuncs = [][2]string{
 // run unless renamed here.
 var trFieldRename = map[string]string{
 	"Call.Func": "fn", "Call.Args": "args", "Signature.Stack": "stack", "Goroutine.Signature": "sig",
-	"Goroutine.ID": "id", "Bucket.IDs": "ids", "Bucket.Signature": "sig",
+	"Goroutine.ID": "id", "Bucket.IDs": "ids", "Bucket.Signature": "key",
 }
 
 var trEnumConst = map[string]string{
@@ -110,8 +110,11 @@ func (t *translator) leanType(n ast.Node, ty types.Type) string {
 		return t.leanType(n, x.Elem())
 	case *types.Named:
 		switch x.Obj().Name() {
-		case "Arg", "Args", "Call", "Stack", "Signature", "Func", "Goroutine", "Bucket":
+		case "Arg", "Args", "Call", "Stack", "Signature", "Func", "Goroutine":
 			return x.Obj().Name()
+		case "Bucket":
+			// Aggregate's sort closure sees a bucket together with the `order` it was given
+			return "Bkt"
 		case "Similarity":
 			return "Lvl"
 		case "Location":
@@ -286,6 +289,14 @@ func (t *translator) pureExpr(e ast.Expr) string {
 		}
 		panic(trImpure{})
 	case *ast.IndexExpr:
+		if m, ok := t.typeOf(x.X).Underlying().(*types.Map); ok {
+			// the only map the translated code reads: order map[*Bucket]int, written once per bucket
+			// by Aggregate before sorting; the model keeps that number in the bucket record
+			if id, ok := x.X.(*ast.Ident); ok && id.Name == "order" && structName(m.Key()) == "Bucket" {
+				return t.pureExpr(x.Index) + ".order"
+			}
+			t.fail(e, "map lookup")
+		}
 		panic(trImpure{})
 	case *ast.CompositeLit:
 		return t.composite(x, func(e ast.Expr) string { return t.pureExpr(e) })
@@ -1063,7 +1074,7 @@ func (p *pkgInfo) translate() string {
 		funcs[f[0]+"_"+f[1]] = true
 	}
 	var sb strings.Builder
-	sb.WriteString("/- GENERATED by /verif/extract (translate.go) from stack/stack.go — do not edit. -/\nimport PP.Go.Prelude\nset_option linter.unusedVariables false\nnamespace PP.Tr\nopen PP PP.Go\n\n")
+	sb.WriteString("/- GENERATED by /verif/extract (translate.go) from stack/stack.go — do not edit. -/\nimport PP.Go.Prelude\nimport PP.Model.Aggregate\nset_option linter.unusedVariables false\nnamespace PP.Tr\nopen PP PP.Go\n\n")
 	type sig struct{ name, typ string }
 	var sigs []sig
 	var bodies []string
@@ -1124,6 +1135,72 @@ func (p *pkgInfo) translate() string {
 			bodies = append(bodies, out.String())
 		}()
 	}
+	// the comparison closure Aggregate passes to sort.SliceStable
+	func() {
+		name := "Aggregate_sortLess"
+		fd := p.funcDecl("Snapshot", "Aggregate")
+		if fd == nil {
+			failed = append(failed, "Snapshot.Aggregate: function not found")
+			return
+		}
+		var lit *ast.FuncLit
+		nsort := 0
+		ast.Inspect(fd, func(n ast.Node) bool {
+			if c, ok := n.(*ast.CallExpr); ok {
+				if sel, ok := c.Fun.(*ast.SelectorExpr); ok {
+					if pk, ok := sel.X.(*ast.Ident); ok && pk.Name == "sort" && sel.Sel.Name != "Ints" {
+						nsort++
+						if sel.Sel.Name == "SliceStable" && len(c.Args) == 2 {
+							lit, _ = c.Args[1].(*ast.FuncLit)
+						}
+					}
+				}
+			}
+			return true
+		})
+		t := &translator{p: p, fn: name, funcs: funcs, ret: "Bool"}
+		defer func() {
+			if r := recover(); r != nil {
+				if tf, ok := r.(trFail); ok {
+					failed = append(failed, "Aggregate sort closure: "+tf.msg)
+					return
+				}
+				panic(r)
+			}
+		}()
+		if lit == nil || nsort != 1 {
+			t.fail(fd, "expected exactly one sort of the buckets, sort.SliceStable with a function literal (found %d sort calls)", nsort)
+		}
+		// the closure must start with  l := bs[i]; r := bs[j]  for its parameters (i, j)
+		if len(lit.Type.Params.List) != 1 || len(lit.Type.Params.List[0].Names) != 2 || len(lit.Body.List) < 3 {
+			t.fail(lit, "unexpected shape of the sort closure")
+		}
+		pi, pj := lit.Type.Params.List[0].Names[0].Name, lit.Type.Params.List[0].Names[1].Name
+		var names []string
+		for k, idx := range []string{pi, pj} {
+			as, ok := lit.Body.List[k].(*ast.AssignStmt)
+			if !ok || as.Tok != token.DEFINE || len(as.Lhs) != 1 || len(as.Rhs) != 1 {
+				t.fail(lit, "the sort closure does not start with l := bs[i]; r := bs[j]")
+			}
+			ix, ok := as.Rhs[0].(*ast.IndexExpr)
+			if !ok {
+				t.fail(as, "the sort closure does not start with l := bs[i]; r := bs[j]")
+			}
+			if id, ok := ix.Index.(*ast.Ident); !ok || id.Name != idx {
+				t.fail(as, "the sort closure does not start with l := bs[i]; r := bs[j]")
+			}
+			names = append(names, as.Lhs[0].(*ast.Ident).Name)
+			t.params = append(t.params, trLocal{names[k], "Bkt"})
+		}
+		body := t.stmts(lit.Body.List[2:], func() string { t.fail(lit, "closure can fall off its end"); return "" })
+		pos := p.fset.Position(lit.Pos())
+		var out strings.Builder
+		for _, d := range t.defs {
+			out.WriteString(d + "\n")
+		}
+		fmt.Fprintf(&out, "/-- the comparison closure of Snapshot.Aggregate (bucket.go:%d), on (bs[i], bs[j]) -/\ndef %s (E : Env) (%s : Bkt) (%s : Bkt) : Option Bool :=\n  %s\n", pos.Line, name, names[0], names[1], body)
+		bodies = append(bodies, out.String())
+	}()
 	if len(failed) != 0 {
 		sort.Strings(failed)
 		// a declaration that cannot be checked, naming what was not translated
